@@ -467,8 +467,18 @@ Proof.
 Qed.
 
 (* ---------------------------------------------------------------- typing of values for the round trip *)
+Definition msg_elem_ok (s : schema) (sub : nat -> list val -> bytes -> bool) (enc : nat -> list val -> bytes -> bytes)
+           (f : fdesc) (j : nat) (x : val) : bool :=
+  match x with
+  | VMsg None => i_pointer (field_info s f)
+  | VMsg (Some (fs1, u1)) => i_pointer (field_info s f) && sub j fs1 u1 && lenb (enc j fs1 u1)
+  | VEmb fs1 u1 => negb (i_pointer (field_info s f)) && sub j fs1 u1 && lenb (enc j fs1 u1)
+  | _ => false
+  end.
 Definition msg_slot_ok (s : schema) (sub : nat -> list val -> bytes -> bool) (enc : nat -> list val -> bytes -> bytes)
-           (f : fdesc) (j : nat) (v : val) : bool := false.      (* extended below, class by class *)
+           (f : fdesc) (j : nat) (v : val) : bool :=
+  if i_repeated (field_info s f) then match v with VList l => forallb (msg_elem_ok s sub enc f j) l | _ => false end
+  else msg_elem_ok s sub enc f j v.
 Definition map_slot_ok (kk vk : kind) (v : val) : bool := false.
 Definition cast_slot_ok (s : schema) (f : fdesc) (v : val) : bool := false.
 
@@ -521,10 +531,137 @@ Proof.
   unfold zero_fields. apply nth_error_nth. rewrite nth_error_map, E. reflexivity.
 Qed.
 
+(* ---------------------------------------------------------------- message-typed fields *)
+Definition zero_stable (s : schema) : Prop := forall m f j mj, In m s -> In f (mfields m) -> f_custom f = CNone -> fty f = TMsg j ->
+  i_repeated (field_info s f) = false -> i_pointer (field_info s f) = false -> nth_error s j = Some mj ->
+  zero_slot (length s) s f = VEmb (zero_fields s mj) [].
+Definition msg_idx_ok (s : schema) : Prop := forall m f j, In m s -> In f (mfields m) -> fty f = TMsg j -> exists mj, nth_error s j = Some mj.
+
+Lemma spec_ld_nonempty num p : spec_ld num p <> [].
+Proof. unfold spec_ld, spec_tag. pose proof (spec_varint_nonempty (num * 8 + 2)). destruct (spec_varint (num * 8 + 2)); [congruence|discriminate]. Qed.
+Lemma spec_ld_bytes_ok num p : 0 <= num -> bytes_ok p -> bytes_ok (spec_ld num p).
+Proof. intros Hn Hp. unfold spec_ld. apply bytes_ok_app; [apply spec_tag_bytes_ok; lia|]. apply bytes_ok_app; [apply spec_varint_bytes_ok; lia|exact Hp]. Qed.
+
+Section MsgFieldRT.
+Variables (s : schema) (G : nat) (idx : nat) (m : mdesc).
+Hypothesis Hm : nth_error s idx = Some m.
+Hypothesis Hnd : NoDup (map fnum (mfields m)).
+Variables (g : nat).
+Let enc := ref_encode g s.
+Let sub := rt_ok g s.
+(* the round trip of sub-messages (induction hypothesis), at the budget the enclosing decoder passes down *)
+Hypothesis Hsub : forall j fs1 u1, sub j fs1 u1 = true -> exists mj, nth_error s j = Some mj /\
+  bytes_ok (enc j fs1 u1) /\ ref_decode G s j (enc j fs1 u1) (zero_fields s mj, []) = Some (norm_fields g s j fs1, u1).
+Hypothesis Hstable : zero_stable s.
+Hypothesis Hidx : msg_idx_ok s.
+Hypothesis HG : (1 <= G)%nat.
+
+Lemma sub_nil j mj : nth_error s j = Some mj -> ref_decode G s j [] (zero_fields s mj, []) = Some (zero_fields s mj, []).
+Proof. intros E. destruct G as [|G']; [lia|]. apply (ref_decode_nil s j mj E). Qed.
+
+Lemma msg_rt j slot f fs : In (slot, f) (number_from 0 (mfields m)) -> In m s ->
+  f_custom f = CNone -> fty f = TMsg j -> valid_number (fnum f) = true ->
+  (foneof f <> None -> i_repeated (field_info s f) = false /\ i_pointer (field_info s f) = true) ->
+  msg_slot_ok s sub enc f j (nth slot fs (VInt 0)) = true ->
+  field_rt s G idx m (ref_slot enc) (norm_slot g s) (zero_slot (length s) s) fs (slot, f).
+Proof.
+  intros Hin Hms Hc Ht Hv Hone Hok t u Hz Hsib. cbn [fst snd] in *.
+  pose proof (number_from_In _ _ _ Hin) as Hfin. destruct (Hidx m f j Hms Hfin Ht) as [mj Emj].
+  assert (Hvn : 0 <= fnum f) by (unfold valid_number in Hv; apply andb_true_iff in Hv; destruct Hv as [H1 _]; apply Z.leb_le in H1; lia).
+  assert (Henc : forall v, ref_slot enc f v = ref_msg_slot enc (fnum f) j v) by (intros v; unfold ref_slot; rewrite Hc, Ht; reflexivity).
+  assert (Hzo : zero_of s j = (zero_fields s mj, [])) by (unfold zero_of; rewrite Emj; reflexivity).
+  rewrite Henc in *.
+  (* what one written record does *)
+  assert (Hrec : forall payload t0 r, bytes_ok payload -> lenb payload = true ->
+            apply_known s (ref_decode G s) m slot f {| t_num := fnum f; t_wt := 2; t_pay := PBytes payload; t_raw := spec_varint (Z.of_nat (length payload)) ++ payload |} t0 = Some r ->
+            bytes_ok (spec_ld (fnum f) payload) /\ ref_decode (S G) s idx (spec_ld (fnum f) payload) (t0, u) = Some (r, u)).
+  { intros payload t0 r Hbp Hlp Ha. split; [apply spec_ld_bytes_ok; assumption|].
+    pose proof (ld_token (fnum f) payload [] Hv Hbp Hlp ltac:(constructor)) as Ep. rewrite app_nil_r in Ep.
+    apply (decode_one_token s G idx m Hm Hnd slot f _ _ t0 u r Hin (tokens_single _ _ (spec_ld_nonempty _ _) Ep) eq_refl Ha). }
+  unfold msg_slot_ok in Hok.
+  destruct (i_repeated (field_info s f)) eqn:Er.
+  - (* repeated *)
+    assert (Hno : foneof f = None) by (destruct (foneof f) eqn:E; [destruct (Hone ltac:(congruence)) as [E1 _]; congruence|reflexivity]).
+    destruct (nth slot fs (VInt 0)) as [| | |l| | | | |] eqn:Ev; try discriminate Hok.
+    assert (Hzl : zero_slot (length s) s f = VList []).
+    { destruct (length s); cbn [zero_slot]; rewrite (info_msg s f j Hc Ht), Er; reflexivity. }
+    rewrite Hzl in Hz. cbn [ref_msg_slot].
+    assert (Hk : forall payload t0, apply_known s (ref_decode G s) m slot f {| t_num := fnum f; t_wt := 2; t_pay := PBytes payload; t_raw := spec_varint (Z.of_nat (length payload)) ++ payload |} t0 =
+               match ref_decode G s j payload (zero_fields s mj, []) with
+               | Some x => Some (set_nth t0 slot (VList (as_list (nth slot t0 (VInt 0)) ++ [if i_pointer (field_info s f) then VMsg (Some x) else VEmb (fst x) (snd x)])))
+               | None => None end).
+    { intros payload t0. unfold apply_known. rewrite Hc, Ht, Er, (clear_siblings_none m f slot t0 Hno). cbn [t_pay]. rewrite Hzo. reflexivity. }
+    set (nel := fun e : val => match e with
+                           | VMsg None => VMsg (Some (match nth_error s j with Some mj0 => zero_fields s mj0 | None => [] end, []))
+                           | VMsg (Some (fs1, u0)) => VMsg (Some (norm_fields g s j fs1, u0))
+                           | VEmb fs1 u0 => VEmb (norm_fields g s j fs1) u0
+                           | x => x end).
+    assert (Hnorm : norm_slot g s f (VList l) = VList (map nel l)) by (unfold norm_slot; rewrite Hc, Ht; reflexivity).
+    rewrite Hnorm.
+    assert (Gl : forall l0 acc t0, forallb (msg_elem_ok s sub enc f j) l0 = true -> nth slot t0 (VInt 0) = VList acc -> (slot < length t0)%nat ->
+              bytes_ok (flat_map (ref_msg_elem enc (fnum f) j) l0) /\
+              ref_decode (S G) s idx (flat_map (ref_msg_elem enc (fnum f) j) l0) (t0, u) = Some (set_nth t0 slot (VList (acc ++ map nel l0)), u)).
+    { induction l0 as [|x l0 IH]; intros acc t0 Hal Hn Hsl.
+      - split; [constructor|]. cbn [flat_map map]. rewrite (ref_decode_nil s idx m Hm), app_nil_r, <- Hn, set_nth_same. reflexivity.
+      - cbn [flat_map forallb map] in *. apply andb_true_iff in Hal. destruct Hal as [Hx Hal].
+        assert (Hstep : bytes_ok (ref_msg_elem enc (fnum f) j x) /\
+                        ref_decode (S G) s idx (ref_msg_elem enc (fnum f) j x) (t0, u) = Some (set_nth t0 slot (VList (acc ++ [nel x])), u)).
+        { unfold msg_elem_ok in Hx. destruct x as [| | | |[[fs1 u1]|]|fs1 u1| | |]; try discriminate Hx; cbn [ref_msg_elem].
+          - apply andb_true_iff in Hx. destruct Hx as [Hx Hl1]. apply andb_true_iff in Hx. destruct Hx as [Hp Hs1].
+            destruct (Hsub j fs1 u1 Hs1) as [mj' [E' [Hb1 Hd1]]]. rewrite Emj in E'. injection E' as <-.
+            apply (Hrec _ t0 _ Hb1 Hl1). rewrite Hk. fold enc. rewrite Hd1, Hn, Hp. reflexivity.
+          - apply (Hrec [] t0 _ ltac:(constructor) ltac:(reflexivity)). rewrite Hk, (sub_nil j mj Emj), Hn, Hx. cbn [nel]. rewrite Emj. reflexivity.
+          - apply andb_true_iff in Hx. destruct Hx as [Hx Hl1]. apply andb_true_iff in Hx. destruct Hx as [Hp Hs1]. apply negb_true_iff in Hp.
+            destruct (Hsub j fs1 u1 Hs1) as [mj' [E' [Hb1 Hd1]]]. rewrite Emj in E'. injection E' as <-.
+            apply (Hrec _ t0 _ Hb1 Hl1). rewrite Hk. fold enc. rewrite Hd1, Hn, Hp. reflexivity. }
+        destruct Hstep as [Hb1 Hd1].
+        destruct (IH (acc ++ [nel x]) (set_nth t0 slot (VList (acc ++ [nel x]))) Hal ltac:(apply nth_set_nth_in; exact Hsl) ltac:(rewrite set_nth_length; exact Hsl)) as [Hb2 Hd2].
+        split; [apply bytes_ok_app; assumption|].
+        rewrite (ref_decode_app (S G) s idx _ _ (t0, u) _ Hb1 Hd1), Hd2. rewrite set_nth_set_nth, <- app_assoc. reflexivity. }
+    destruct (Nat.lt_ge_cases slot (length t)) as [Hsl|Hsl]; [|exfalso; rewrite nth_overflow in Hz by exact Hsl; discriminate Hz].
+    destruct (Gl l [] t Hok Hz Hsl) as [Hb Hd]. split; [exact Hb|]. rewrite Hd. reflexivity.
+  - (* singular *)
+    unfold msg_elem_ok in Hok.
+    destruct (nth slot fs (VInt 0)) as [| | | |[[fs1 u1]|]|fs1 u1| | |] eqn:Ev; try discriminate Hok; cbn [ref_msg_slot].
+    + (* pointer to a message *)
+      apply andb_true_iff in Hok. destruct Hok as [Hok Hl1]. apply andb_true_iff in Hok. destruct Hok as [Hp Hs1].
+      destruct (Hsub j fs1 u1 Hs1) as [mj' [E' [Hb1 Hd1]]]. rewrite Emj in E'. injection E' as <-.
+      assert (Hzp : zero_slot (length s) s f = VMsg None) by (destruct (length s); cbn [zero_slot]; rewrite (info_msg s f j Hc Ht), Er, Hp; reflexivity).
+      rewrite Hzp in Hz.
+      assert (Hnorm : norm_slot g s f (VMsg (Some (fs1, u1))) = VMsg (Some (norm_fields g s j fs1, u1))) by (unfold norm_slot; rewrite Hc, Ht; reflexivity).
+      rewrite Hnorm. apply (Hrec _ t _ Hb1 Hl1).
+      unfold apply_known. rewrite Hc, Ht, Er, Hp. cbn [t_pay]. rewrite Hz, Hzo. fold enc. rewrite Hd1.
+      rewrite clear_unset; [reflexivity|]. intros sib Hsb. destruct (siblings_are_fields m f slot sib Hsb) as [q [Hq <-]].
+      apply (Hsib (spec_ld_nonempty _ _) q Hq Hsb).
+    + (* nil pointer *)
+      assert (Hzp : zero_slot (length s) s f = VMsg None) by (destruct (length s); cbn [zero_slot]; rewrite (info_msg s f j Hc Ht), Er, Hok; reflexivity).
+      split; [constructor|]. rewrite (ref_decode_nil s idx m Hm).
+      assert (Hnorm : norm_slot g s f (VMsg None) = VMsg None) by (unfold norm_slot; rewrite Hc, Ht; reflexivity).
+      rewrite Hnorm, <- Hzp, <- Hz, set_nth_same. reflexivity.
+    + (* always-present message *)
+      apply andb_true_iff in Hok. destruct Hok as [Hok Hl1]. apply andb_true_iff in Hok. destruct Hok as [Hp Hs1]. apply negb_true_iff in Hp.
+      destruct (Hsub j fs1 u1 Hs1) as [mj' [E' [Hb1 Hd1]]]. rewrite Emj in E'. injection E' as <-.
+      assert (Hno : foneof f = None) by (destruct (foneof f) eqn:E; [destruct (Hone ltac:(congruence)) as [_ E1]; congruence|reflexivity]).
+      pose proof (Hstable m f j mj Hms Hfin Hc Ht Er Hp Emj) as Hzp. rewrite Hzp in Hz.
+      assert (Hnorm : norm_slot g s f (VEmb fs1 u1) = VEmb (norm_fields g s j fs1) u1) by (unfold norm_slot; rewrite Hc, Ht; reflexivity).
+      rewrite Hnorm. fold enc.
+      destruct (enc j fs1 u1) as [|y0 l0] eqn:Ep.
+      * (* empty payload: nothing is written, and the blank value is the normal form *)
+        rewrite (sub_nil j mj Emj) in Hd1. injection Hd1 as E1 E2.
+        split; [constructor|]. rewrite (ref_decode_nil s idx m Hm). rewrite <- E1, <- E2, <- Hz, set_nth_same. reflexivity.
+      * apply (Hrec _ t _ Hb1 Hl1).
+        unfold apply_known. rewrite Hc, Ht, Er, Hp. cbn [t_pay]. rewrite Hz. cbv beta iota.
+        match goal with |- match ?x with _ => _ end = _ => replace x with (Some (norm_fields g s j fs1, u1)) by (symmetry; exact Hd1) end.
+        rewrite (clear_siblings_none m f slot t Hno). reflexivity.
+Qed.
+End MsgFieldRT.
+
 (* ---------------------------------------------------------------- the round trip, by induction on the nesting of the value *)
 Section Top.
 Variable s : schema.
 Hypothesis Happ : tdec_applies s = true.
+Hypothesis Hstable : zero_stable s.
+Hypothesis Hidx : msg_idx_ok s.
 
 Lemma wf_of_app : wf_schema_dec s /\ supported_schema s.
 Proof. apply tdec_applies_spec. exact Happ. Qed.
@@ -533,7 +670,10 @@ Definition rt_stmt (g : nat) : Prop := forall idx fs un m G, nth_error s idx = S
   bytes_ok (ref_encode g s idx fs un) /\
   ref_decode (S G) s idx (ref_encode g s idx fs un) (zero_fields s m, []) = Some (norm_fields g s idx fs, un).
 
-Lemma field_dispatch g G idx m fs : nth_error s idx = Some m -> (g <= G)%nat -> rt_stmt g ->
+Lemma rt_ok_idx g j fs1 u1 : rt_ok g s j fs1 u1 = true -> exists mj, nth_error s j = Some mj.
+Proof. destruct g; [discriminate|]. cbn [rt_ok]. destruct (nth_error s j) as [mj|]; [exists mj; reflexivity|discriminate]. Qed.
+
+Lemma field_dispatch g G idx m fs : nth_error s idx = Some m -> (S g <= G)%nat -> rt_stmt g ->
   forall p, In p (number_from 0 (mfields m)) ->
   slot_rt_ok s (rt_ok g s) (ref_encode g s) (snd p) (nth (fst p) fs (VInt 0)) = true ->
   field_rt s G idx m (ref_slot (ref_encode g s)) (norm_slot g s) (zero_slot (length s) s) fs p.
@@ -574,6 +714,14 @@ Proof.
           [reflexivity|symmetry; apply norm_slot_scalar; [exact Hc|right; exact Ht]|
            rewrite (zero_slot_scalar _ s f KInt32 Hc (or_intror (conj Ht (conj eq_refl Hp)))), Er; reflexivity|].
         apply (scalar_single_rt s G idx m Hm Hnd (ref_encode g s) KInt32 slot f fs Hin Hc (or_intror (conj Ht eq_refl)) Er Hv Hok).
+    + (* message *)
+      assert (Hsub : forall j0 fs1 u1, rt_ok g s j0 fs1 u1 = true -> exists mj, nth_error s j0 = Some mj /\
+                bytes_ok (ref_encode g s j0 fs1 u1) /\ ref_decode G s j0 (ref_encode g s j0 fs1 u1) (zero_fields s mj, []) = Some (norm_fields g s j0 fs1, u1)).
+      { intros j0 fs1 u1 H1. destruct (rt_ok_idx g j0 fs1 u1 H1) as [mj Emj]. exists mj. split; [exact Emj|].
+        destruct G as [|G']; [lia|]. apply (IH j0 fs1 u1 mj G' Emj H1). lia. }
+      apply (msg_rt s G idx m Hm Hnd g Hsub Hstable Hidx ltac:(lia) j slot f fs Hin Hms Hc Ht Hv); [|exact Hok].
+      intros Ho. destruct Hs as [[_ [[[k [Hk|[Hk _]]] _]|[[j' [Ht' [[Hl Hp]|[Hl Hno]]]]|[kk [vk [Ht' _]]]]]]|[[E|E] _]]; try congruence.
+      split; [apply info_not_repeated, Hl|apply Hp, Ho].
 Qed.
 
 (* oneof members: typed values are a set member or the unset form, and unset members write nothing *)
@@ -595,6 +743,13 @@ Proof.
     unfold scalar_slot_ok in Hok. rewrite Hr, info_oneof in Hok. destruct (foneof f); [|congruence]. cbn [orb] in Hok.
     destruct v as [| |[x|]| | | | | |]; try discriminate Hok; [discriminate Hns|].
     unfold ref_slot, norm_slot. rewrite Hc, Ht. cbn. repeat split. left; reflexivity.
+  - (* message member: a pointer *)
+    assert (Hrp : i_repeated (field_info s f) = false /\ i_pointer (field_info s f) = true).
+    { destruct Hs as [[_ [[[k [Hk|[Hk _]]] _]|[[j' [Ht' [[Hl Hp]|[Hl Hno]]]]|[kk [vk [Ht' _]]]]]]|[[E|E] _]]; try congruence.
+      split; [apply info_not_repeated, Hl|apply Hp, Ho]. }
+    destruct Hrp as [Hr Hp]. unfold msg_slot_ok in Hok. rewrite Hr in Hok. unfold msg_elem_ok in Hok. rewrite Hp in Hok.
+    destruct v as [| | | |[[fs1 u1]|]|fs1 u1| | |]; try discriminate Hok; [discriminate Hns|].
+    unfold ref_slot, norm_slot. rewrite Hc, Ht. cbn. repeat split. right; reflexivity.
 Qed.
 
 Lemma oneof_member_zero n f : supported s f -> foneof f <> None -> unset (zero_slot n s f).
@@ -630,7 +785,7 @@ Proof.
   cbn [ref_encode]. rewrite Hm.
   set (fields := number_from 0 (mfields m)) in *. set (sorted := sort_by_num fields).
   assert (Hfield : forall p, In p fields -> field_rt s G idx m (ref_slot (ref_encode g s)) (norm_slot g s) (zero_slot (length s) s) fs p).
-  { intros p Hp. apply (field_dispatch g G idx m fs Hm ltac:(lia) IH p Hp). apply Hslots, Hp. }
+  { intros p Hp. apply (field_dispatch g G idx m fs Hm HG IH p Hp). apply Hslots, Hp. }
   assert (Hz1 : forall p q, In p fields -> In q fields -> In (fst q) (oneof_siblings m (snd p) (fst p)) -> unset (zero_slot (length s) s (snd q))).
   { intros p q Hp Hq Hs. apply oneof_member_zero; [apply (Hsup m Hms), (number_from_In _ _ _ Hq)|].
     unfold oneof_siblings in Hs. destruct (foneof (snd p)) as [o|] eqn:Eo; [|destruct Hs]. apply in_map_iff in Hs. destruct Hs as [q' [E Hq']].
@@ -682,26 +837,107 @@ Proof.
 Qed.
 End Top.
 
+(* ---------------------------------------------------------------- decidable side conditions on the schema *)
+Fixpoint list_eqb {A} (eq : A -> A -> bool) (l1 l2 : list A) : bool :=
+  match l1, l2 with
+  | [], [] => true
+  | x :: t1, y :: t2 => eq x y && list_eqb eq t1 t2
+  | _, _ => false
+  end.
+Lemma list_eqb_sound {A} (eq : A -> A -> bool) : (forall x y, eq x y = true -> x = y) -> forall l1 l2, list_eqb eq l1 l2 = true -> l1 = l2.
+Proof.
+  intros He. induction l1 as [|x t1 IH]; intros [|y t2] H; try discriminate H; [reflexivity|].
+  cbn in H. apply andb_true_iff in H. destruct H as [H1 H2]. f_equal; [apply He, H1|apply IH, H2].
+Qed.
+
+Fixpoint val_eqb (n : nat) (a b : val) : bool :=
+  match n with
+  | O => false
+  | S n' =>
+      match a, b with
+      | VInt x, VInt y => x =? y
+      | VBytes x, VBytes y => bytes_eqb x y
+      | VOpt None, VOpt None => true
+      | VOpt (Some x), VOpt (Some y) => val_eqb n' x y
+      | VList x, VList y => list_eqb (val_eqb n') x y
+      | VMsg None, VMsg None => true
+      | VMsg (Some (f1, u1)), VMsg (Some (f2, u2)) => list_eqb (val_eqb n') f1 f2 && bytes_eqb u1 u2
+      | VEmb f1 u1, VEmb f2 u2 => list_eqb (val_eqb n') f1 f2 && bytes_eqb u1 u2
+      | VMap l1, VMap l2 => list_eqb (fun p q : val * val => val_eqb n' (fst p) (fst q) && val_eqb n' (snd p) (snd q)) l1 l2
+      | VTime a1 b1, VTime a2 b2 => (a1 =? a2) && (b1 =? b2)
+      | VDur x, VDur y => x =? y
+      | _, _ => false
+      end
+  end.
+Lemma val_eqb_sound : forall n a b, val_eqb n a b = true -> a = b.
+Proof.
+  induction n as [|n IH]; intros a b H; [discriminate H|]. cbn [val_eqb] in H.
+  destruct a as [x|x|[x|]|x|[[f1 u1]|]|f1 u1|l1|a1 b1|x]; destruct b as [y|y|[y|]|y|[[f2 u2]|]|f2 u2|l2|a2 b2|y]; try discriminate H.
+  - apply Z.eqb_eq in H. congruence.
+  - apply bytes_eqb_eq in H. congruence.
+  - f_equal. f_equal. apply IH, H.
+  - reflexivity.
+  - f_equal. apply (list_eqb_sound _ IH _ _ H).
+  - apply andb_true_iff in H. destruct H as [H1 H2]. apply bytes_eqb_eq in H2. rewrite (list_eqb_sound _ IH _ _ H1), H2. reflexivity.
+  - reflexivity.
+  - apply andb_true_iff in H. destruct H as [H1 H2]. apply bytes_eqb_eq in H2. rewrite (list_eqb_sound _ IH _ _ H1), H2. reflexivity.
+  - f_equal. apply (list_eqb_sound (fun p q : val * val => val_eqb n (fst p) (fst q) && val_eqb n (snd p) (snd q))); [|exact H].
+    intros [p1 p2] [q1 q2] Hpq. cbn [fst snd] in Hpq. apply andb_true_iff in Hpq. destruct Hpq as [E1 E2]. f_equal; apply IH; assumption.
+  - apply andb_true_iff in H. destruct H as [H1 H2]. apply Z.eqb_eq in H1. apply Z.eqb_eq in H2. congruence.
+  - apply Z.eqb_eq in H. congruence.
+Qed.
+
+Definition zero_stable_b (s : schema) : bool :=
+  forallb (fun m => forallb (fun f =>
+     match f_custom f, fty f with
+     | CNone, TMsg j =>
+         if negb (i_repeated (field_info s f)) && negb (i_pointer (field_info s f)) then
+           match nth_error s j with
+           | Some mj => val_eqb (S (S (length s))) (zero_slot (length s) s f) (VEmb (zero_fields s mj) [])
+           | None => true
+           end
+         else true
+     | _, _ => true
+     end) (mfields m)) s.
+Lemma zero_stable_b_spec s : zero_stable_b s = true -> zero_stable s.
+Proof.
+  unfold zero_stable_b, zero_stable. intros H m f j mj Hm Hf Hc Ht Hr Hp Ej. rewrite forallb_forall in H. specialize (H m Hm).
+  rewrite forallb_forall in H. specialize (H f Hf). rewrite Hc, Ht, Hr, Hp, Ej in H. cbn [negb andb] in H. apply (val_eqb_sound _ _ _ H).
+Qed.
+
+Definition msg_idx_ok_b (s : schema) : bool :=
+  forallb (fun m => forallb (fun f => match fty f with TMsg j => match nth_error s j with Some _ => true | None => false end | _ => true end) (mfields m)) s.
+Lemma msg_idx_ok_b_spec s : msg_idx_ok_b s = true -> msg_idx_ok s.
+Proof.
+  unfold msg_idx_ok_b, msg_idx_ok. intros H m f j Hm Hf Ht. rewrite forallb_forall in H. specialize (H m Hm).
+  rewrite forallb_forall in H. specialize (H f Hf). rewrite Ht in H. destruct (nth_error s j) as [mj|]; [exists mj; reflexivity|discriminate H].
+Qed.
+
+(* the side condition of the round-trip theorems *)
+Definition rt_applies (s : schema) : bool := tdec_applies s && zero_stable_b s && msg_idx_ok_b s.
+
 (* ---------------------------------------------------------------- C03 for generated code *)
-Theorem ref_round_trip s g idx fs un m : tdec_applies s = true -> nth_error s idx = Some m -> rt_ok g s idx fs un = true ->
+Theorem ref_round_trip s g idx fs un m : rt_applies s = true -> nth_error s idx = Some m -> rt_ok g s idx fs un = true ->
   bytes_ok (ref_encode g s idx fs un) /\
   forall G, (length (ref_encode g s idx fs un) < G)%nat ->
     ref_decode G s idx (ref_encode g s idx fs un) (zero_fields s m, []) = Some (norm_fields g s idx fs, un).
 Proof.
-  intros Happ Hm Hok. destruct (ref_round_trip_all s Happ g idx fs un m g Hm Hok (le_n g)) as [Hb Hd]. split; [exact Hb|].
+  intros Happ Hm Hok. unfold rt_applies in Happ. apply andb_true_iff in Happ. destruct Happ as [Happ Hi]. apply andb_true_iff in Happ. destruct Happ as [Happ Hz].
+  destruct (ref_round_trip_all s Happ (zero_stable_b_spec s Hz) (msg_idx_ok_b_spec s Hi) g idx fs un m g Hm Hok (le_n g)) as [Hb Hd]. split; [exact Hb|].
   intros G HG. apply (ref_decode_enough s _ (S g) G idx _ _ Hb Hd HG).
 Qed.
 
 (* Unmarshal(Marshal(m)) into a fresh message reproduces m (up to the by-design normal form of Norm.v) *)
 Theorem marshal_unmarshal s progs fuel idx fs un m :
-  gen_all s = GOk progs -> wf_schema_enc s = true -> tdec_applies s = true -> nth_error s idx = Some m ->
+  gen_all s = GOk progs -> wf_schema_enc s = true -> rt_applies s = true -> nth_error s idx = Some m ->
   msg_ok fuel progs idx (Some (fs, un)) = true -> rt_ok fuel s idx fs un = true ->
   exists data, pico_marshal fuel progs idx (fs, un) = Ok data /\
                pico_unmarshal progs idx data (zero_fields s m, []) = (None, (norm_fields fuel s idx fs, un)).
 Proof.
   intros Hgen Hwe Happ Hm Hmok Hrt. exists (ref_encode fuel s idx fs un). split; [apply T_enc; assumption|].
   destruct (ref_round_trip s fuel idx fs un m Happ Hm Hrt) as [Hb Hd].
-  pose proof (T_dec_b s progs idx (ref_encode fuel s idx fs un) (zero_fields s m, []) Hgen Happ Hb) as Ht. cbv zeta in Ht.
+  assert (Ha : tdec_applies s = true) by (unfold rt_applies in Happ; apply andb_true_iff in Happ; destruct Happ as [H _]; apply andb_true_iff in H; tauto).
+  pose proof (T_dec_b s progs idx (ref_encode fuel s idx fs un) (zero_fields s m, []) Hgen Ha Hb) as Ht. cbv zeta in Ht.
   rewrite (Hd (S (S (S (length (ref_encode fuel s idx fs un))))) ltac:(lia)) in Ht. destruct Ht as [E1 E2].
   destruct (pico_unmarshal progs idx (ref_encode fuel s idx fs un) (zero_fields s m, [])) as [e r]. cbn [fst snd] in *. subst. reflexivity.
 Qed.
